@@ -80,9 +80,12 @@ def run(tier, seed, rep):
             e = rnd.randint(s + 1, min(n, s + 6))
             if any(iv["s"] < x < iv["e"] for iv in T["intervals"] for x in (s, e)):
                 continue
-            Q = slice_abs(T, s, e)
+            Q = copy.deepcopy(slice_abs(T, s, e))
             r_ = rnd.random()
-            if r_ < 0.25 and Q["internal"]:
+            if r_ < 0.12 and Q["internal"]:
+                em = rnd.choice(Q["internal"])                                  # perturbed: write one mod twice
+                em["mods"] = em["mods"] + [copy.deepcopy(rnd.choice(em["mods"]))]
+            elif r_ < 0.25 and Q["internal"]:
                 Q["internal"].pop(rnd.randrange(len(Q["internal"])))          # perturbed: drop a residue mod
             elif r_ < 0.4:
                 p_ = rnd.randrange(len(Q["seq"]))
